@@ -20,7 +20,9 @@ from checks.c09 import declare_buffer
 from checks.common import buffer_witness
 
 PROP = "C06"
-KINDS = {"zero": dict(kind="zero"), "fixed": dict(kind="fixed"), "var": dict(kind="var", vmin=True, vmax=True)}
+KINDS = {"zero": dict(kind="zero"), "fixed": dict(kind="fixed"), "var": dict(kind="var", vmin=True, vmax=True),
+         "var_allowed": dict(kind="var", allowed=2), "var_all": dict(kind="var", vmin=True, vmax=True, allowed=3), "var_free": dict(kind="var")}
+BASIC_KINDS = ("zero", "fixed", "var")
 
 
 # ---- contexts for (b)/(c): how the optional task T is embedded --------------------------------
@@ -376,11 +378,17 @@ def shapes(tier):
     out = []
     thorough = tier == "thorough"
     for context in CONTEXTS:
-        for kname in (KINDS if (thorough or context in ("plain", "release_due", "worker", "buffer_nonconcurrent", "indicators", "precedence_before")) else ["fixed"]):
+        if thorough or context in ("plain", "release_due", "worker", "select"):
+            knames = list(KINDS)
+        elif context in ("buffer_nonconcurrent", "indicators", "precedence_before"):
+            knames = list(BASIC_KINDS)
+        else:
+            knames = ["fixed"]
+        for kname in knames:
             if kname == "zero" and context == "work_amount":
                 pass
             out.append(deletion_shape(kname, context))
-    for kname in KINDS:
+    for kname in BASIC_KINDS:
         for release, due in [(False, None), (True, "deadline"), (True, "soft")]:
             out.append(timing_shape(kname, release, due, "plain"))
         for context in ("worker", "select", "buffer_nonconcurrent", "precedence_after", "group_window"):
